@@ -1014,13 +1014,15 @@ def _compare_with_model(ck, env, kinds, pending, rep):
             for h, v in hyps.items():
                 ck.hist('graph.hyp.' + h, v)
             # the _partial theorems, evaluated: with the hypotheses, retained types = types of the closure
-            if 'ok' in mres and hyps['docs_agree'] and hyps['tag_defaults_ok'] and hyps['route_docs_closed']:
+            # filter_eq_closure / filter_routes_eq_closure, evaluated: with the hypotheses (which every dump of a compiled Api
+            # satisfies since the walk was repaired), retained = closure
+            if 'ok' in mres and hyps['docs_agree'] and hyps['tag_defaults_ok']:
                 ctypes = sorted(i for i in m['closure'] if kinds.get(i) in ('struct', 'union'))
                 if ctypes == sorted(mres['ok']['types']):
                     ck.agree('graph.thm.filter_types_eq_closure')
                 else:
                     ck.disagree('graph.thm.filter_types_eq_closure', case, ctypes, sorted(mres['ok']['types']))
-                if hyps['seed_doc_routes_kept']:
+                if True:
                     croutes = sorted(i for i in m['closure'] if kinds.get(i) == 'route')
                     if croutes == sorted(mres['ok']['routes']):
                         ck.agree('graph.thm.filter_routes_eq_closure')
@@ -1196,9 +1198,12 @@ def edge_grid_specs(chunk=12):
                 ns.append('union T%d\n    v\n    m L%d\n\nstruct L%d\n    l Int32\n\n' % (x, x, x))
                 return 'See :type:`%sT%d`.' % (p, x)
             if tag == 'field':
-                # (a reference with a namespace, :field:`gb.T.v`, makes the filter raise: listed finding, kept out)
-                g.ga.append('struct T%d\n    v Int32\n\n' % x)
-                return 'See :field:`T%d.v`.' % x
+                ns.append('struct T%d\n    v Int32\n\n' % x)
+                return 'See :field:`%sT%d.v`.' % (p, x)
+            if tag == 'field-alias':
+                ns.append('struct T%d\n    v Int32\n\n' % x)
+                g.ga.append('alias TA%d = %sT%d\n\n' % (x, p, x))
+                return 'See :field:`TA%d.v`.' % x
             if tag == 'route':
                 ns.append('struct T%d\n    v Int32\n\nstruct E%d\n    e Int32\n\nroute m%d (Void, List(T%d), E%d?)\n\n' % (x, x, x, x, x))
                 return 'See :route:`%sm%d`.' % (p, x)
@@ -1208,9 +1213,7 @@ def edge_grid_specs(chunk=12):
                 return 'See :route:`%sm%d:2`.' % (p, x)
             raise ValueError(tag)
 
-        for tag in ('type', 'union', 'field', 'route', 'route-v2'):
-            if foreign and tag == 'field':
-                continue
+        for tag in ('type', 'union', 'field', 'field-alias', 'route', 'route-v2'):
             for where in ('struct', 'union', 'field', 'void-tag', 'member', 'alias', 'route', 'inherited-field', 'subtype-field',
                           'parent', 'nested-field', 'result-field'):
                 x = g.new()
